@@ -234,6 +234,7 @@ func assignOne(destValue reflect.Value, taken any, to string) (reflect.Value, er
 		originalDestValue = destValue
 		parentMap         reflect.Value
 		parentKey         string
+		parentEntry       reflect.Value // the (copy of the) entry of parentMap under parentKey that is being filled
 	)
 
 	for {
@@ -260,13 +261,13 @@ func assignOne(destValue reflect.Value, taken any, to string) (reflect.Value, er
 				}
 
 				if !toSet.IsValid() {
-					destValue.Interface().(map[string]any)[path] = nil
+					destValue.SetMapIndex(key, reflect.Zero(destValue.Type().Elem()))
 				} else {
 					destValue.SetMapIndex(key, toSet)
 				}
 
 				if parentMap.IsValid() {
-					parentMap.SetMapIndex(reflect.ValueOf(parentKey), destValue)
+					parentMap.SetMapIndex(reflect.ValueOf(parentKey), parentEntry)
 				}
 
 				return originalDestValue, nil
@@ -284,7 +285,7 @@ func assignOne(destValue reflect.Value, taken any, to string) (reflect.Value, er
 			}
 
 			if parentMap.IsValid() {
-				parentMap.SetMapIndex(reflect.ValueOf(parentKey), destValue)
+				parentMap.SetMapIndex(reflect.ValueOf(parentKey), parentEntry)
 			}
 
 			return originalDestValue, nil
@@ -311,14 +312,20 @@ func assignOne(destValue reflect.Value, taken any, to string) (reflect.Value, er
 			if !valueValue.IsValid() {
 				valueValue = newInstanceByType(destValue.Type().Elem())
 				destValue.SetMapIndex(keyValue, valueValue)
+			} else if !valueValue.CanSet() {
+				// an existing entry is not addressable: fill a copy, it is written back below
+				entry := reflect.New(destValue.Type().Elem()).Elem()
+				entry.Set(valueValue)
+				valueValue = entry
 			}
 
 			if parentMap.IsValid() {
-				parentMap.SetMapIndex(reflect.ValueOf(parentKey), destValue)
+				parentMap.SetMapIndex(reflect.ValueOf(parentKey), parentEntry)
 			}
 
 			parentMap = destValue
 			parentKey = path
+			parentEntry = valueValue
 			destValue = valueValue
 
 			continue
@@ -344,7 +351,8 @@ func assignOne(destValue reflect.Value, taken any, to string) (reflect.Value, er
 
 		instantiateIfNeeded(field)
 
-		if parentMap.IsValid() {
+		if parentMap.IsValid() && parentEntry.Kind() == reflect.Ptr {
+			// the entry is a pointer: what is set below it is shared, nothing is left to write back
 			parentMap.SetMapIndex(reflect.ValueOf(parentKey), ptrValue)
 			parentMap = reflect.Value{}
 			parentKey = ""
@@ -530,19 +538,12 @@ func checkAndExtractToMapKey(toMapKey string, output, toSet reflect.Value) (key 
 	}
 
 	if !toSet.IsValid() {
-		if output.Type() != reflect.TypeOf(map[string]any{}) {
-			return reflect.Value{}, fmt.Errorf("field mapping from a zero reflect.Value to map field whose map type is not map[string]any: %v", output.Type())
-		}
-
 		switch output.Type().Elem().Kind() {
 		case reflect.Map, reflect.Slice, reflect.Ptr, reflect.Interface:
-			return reflect.ValueOf(toMapKey), nil
 		default:
 			return reflect.Value{}, fmt.Errorf("field mapping from a zero reflect.Value to type=%v, which cannot be nil", output.Type().Elem())
 		}
-	}
-
-	if !toSet.Type().AssignableTo(output.Type().Elem()) {
+	} else if !toSet.Type().AssignableTo(output.Type().Elem()) {
 		return reflect.Value{}, fmt.Errorf("field mapping to a map key but map value has a mismatched type. key=%s, from=%v, to=%v", toMapKey, toSet.Type(), output.Type().Elem())
 	}
 
